@@ -573,6 +573,9 @@ class HostModel:
                 raise Unmodelled("default with preparer on unsupported kind")
             return d
         if kind == "leaf":
+            if self.world.spec["leaf"].get("inv"):
+                # the nested class has interacting attributes: left to the metamorphic relations
+                raise Unmodelled("nested class with an invalidated attribute")
             old = spec_attrs(before_real) if elem_kind_of(before_real) == "leaf" else None
             if verb == "with":
                 val = args[0] if args else _NOARG
